@@ -270,6 +270,7 @@ package algo
 //@ requires gs(c, p, cs, nz, fwd, e) == len(p) && gs(c, p, cs, nz, fwd, e - 1) == len(p) - 1
 //@ requires gb(c, p, cs, nz, fwd, e, s) == len(p) && gb(c, p, cs, nz, fwd, e, s + 1) == len(p) - 1
 //@ ensures forall(i, tstart(s, clen(c), e - s, fwd), tstart(s, clen(c), e - s, fwd) + e - s, g(c, p, cs, nz, tstart(s, clen(c), e - s, fwd), i) < len(p))
+//@ ensures g(c, p, cs, nz, tstart(s, clen(c), e - s, fwd), tstart(s, clen(c), e - s, fwd) + e - s) == len(p)
 
 //@ func FuzzyMatchV1
 //@ property C02 C01
